@@ -375,7 +375,7 @@ static inline int trace_FX(svi_t axes)
   for (unsigned long k = 0; k < 3UL; k++) {
     ok = ok && GHOST_DEF(FX[k * 10UL], 0);
     for (unsigned long t = 0; t < CAP; t++)
-      ok = ok && GHOST_DEF(FX[k * 10UL + t + 1UL], (FX[k * 10UL + t] || (t < SV_LEN(axes) && SV_AT(axes, t) == (int)k)) ? 1 : 0);
+      ok = ok && GHOST_DEF(FX[k * 10UL + t + 1UL], (FX[k * 10UL + t] || (t < SV_LEN(axes) && AXIS_OK(SV_AT(axes, t), 3UL) && NORM(SV_AT(axes, t), 3UL) == k)) ? 1 : 0);
   }
   return ok;
 }
